@@ -54,9 +54,13 @@ PROPS["C03"]["level_note"] = PROPS["C03"]["level_note"].replace(
     "given (MBOK/Covers; BrotliOptimizeHistograms and the quality 10/11 splitter are not covered) and is about one "
     "meta-block written by storeMetaBlockFull, not about WriteMetaBlockInternal's stored fallback (wmbi_full_roundtrip "
     "composes the same way). Not covered: "
-    "re-reading a compressed meta-block at a different BIT offset after the concatenator's shift (concat_bits gives the "
-    "bit string; the RFC reader of C01MetaBlock takes the offset only for stored blocks' alignment, not proved "
-    "offset-independent); quality 0/1 (fragment compressors: own last-distance state, no dictionary) and 10/11 "
+    "re-reading a compressed meta-block at a different BIT offset after the concatenator's shift: the READER half is "
+    "proved (compressed_metablock_offset_independent: bits beginning with the compressed non-last header are read at "
+    "every offset to the same state, consuming the same number of bits; readMetaBlock_compressed_shift), the WRITER half "
+    "(the emitted bits begin with that header and do not depend on the bits before them - true by construction of the "
+    "writer models, internal to fast_core/trivial_core/full_core, not exported) is not, so the bit-level theorems are "
+    "stated at the offset the block was written for; "
+    "quality 0/1 (fragment compressors: own last-distance state, no dictionary) and 10/11 "
     "(Zopfli). The catable parameter set BV/Model/Catable.lean is tied by 120 `catable setparam/init` lines per run "
     "(all flag combinations x values x qualities, against set_parameter and a real encoder after ensure_initialized); "
     "set_custom_dictionary with an EMPTY dictionary sets catable AFTER ensure_initialized, i.e. without poisoning the "
